@@ -19,16 +19,23 @@ namespace IstioModel.C04
 
 /-- No request, conformant or not, in any state, crashes the SotW classification
     (holds for the repaired code; see `crash_witness_unguarded` for the pinned tree). -/
-theorem never_crashes (s : State) (r : Req) : shouldRespond s r ≠ .crash := by
-  unfold shouldRespond shouldRespondG
-  cases r.err <;> simp only []
-  · split
+theorem respondTail_never_crashes (f : Repairs) (s : State) (r : Req) : respondTail f s r ≠ .crash := by
+  unfold respondTail
+  split
+  · simp
+  · cases s r.ty <;> simp only []
     · simp
-    · cases s r.ty <;> simp only []
-      · simp
-      · repeat' split
-        all_goals simp
-  · cases s r.ty <;> simp
+    · repeat' split
+      all_goals simp
+
+theorem never_crashes (s : State) (r : Req) : shouldRespond s r ≠ .crash := by
+  unfold shouldRespond shouldRespondR
+  cases r.err <;> simp only []
+  · exact respondTail_never_crashes _ _ _
+  · cases s r.ty <;> simp only []
+    · simp only [if_true]
+      exact respondTail_never_crashes _ _ _
+    · simp
 
 theorem never_crashes_delta (s : State) (r : DReq) : shouldRespondDelta s r ≠ .crash := by
   unfold shouldRespondDelta shouldRespondDeltaG deltaFirst deltaTail
@@ -50,22 +57,16 @@ theorem crash_witness_unguarded :
   rfl
 
 theorem crash_witness_unguarded_delta :
-    shouldRespondDeltaG false false State.empty
+    shouldRespondDeltaG false false false State.empty
       { ty := .cds, sub := [], unsub := [], init := [], nonce := "", err := some "boom" } = .crash := by
   rfl
 
 /-- Without the guard the crash happens exactly on a NACK for an unwatched type. -/
 theorem crash_iff_unguarded (s : State) (r : Req) :
     shouldRespondG false s r = .crash ↔ (r.err.isSome ∧ s r.ty = none) := by
-  unfold shouldRespondG
+  unfold shouldRespondG shouldRespondR
   cases h : r.err <;> simp only []
-  · simp
-    split
-    · simp
-    · cases s r.ty <;> simp only []
-      · simp
-      · repeat' split
-        all_goals simp
+  · simp [respondTail_never_crashes]
   · cases s r.ty <;> simp
 
 /-! ## Classification (state of the world) -/
@@ -75,37 +76,80 @@ theorem crash_iff_unguarded (s : State) (r : Req) :
 theorem first_request_or_reconnect_responds (s : State) (r : Req)
     (hnone : s r.ty = none) (herr : r.err = none) (hsub : r.unsub = false) :
     shouldRespond s r = .out true [] (newWatched s r.ty r.names) := by
-  simp [shouldRespond, shouldRespondG, herr, hsub, hnone]
+  simp [shouldRespond, shouldRespondR, respondTail, herr, hsub, hnone]
 
 /-- A request with an empty nonce (new subscription on a known type) is always answered. -/
 theorem empty_nonce_responds (s : State) (r : Req)
     (herr : r.err = none) (hsub : r.unsub = false) (hn : r.nonce = "") :
     shouldRespond s r = .out true [] (newWatched s r.ty r.names) := by
-  unfold shouldRespond shouldRespondG
+  unfold shouldRespond shouldRespondR respondTail
   simp only [herr, hsub]
   cases s r.ty <;> simp [hn]
 
-/-- A NACK is never answered and changes nothing but `LastError`. -/
-theorem nack_silent (s : State) (r : Req) (msg : String) (herr : r.err = some msg) :
-    shouldRespond s r = .out false [] (match s r.ty with
-      | none => s
-      | some w => s.set r.ty (some { w with lastError := msg })) := by
-  unfold shouldRespond shouldRespondG
-  simp only [herr]
-  cases s r.ty <;> simp
+/-- A request without `error_detail` is handled by the part of `ShouldRespond` below the `error_detail` block. -/
+theorem shouldRespond_noerr (s : State) (r : Req) (herr : r.err = none) : shouldRespond s r = respondTail {} s r := by
+  simp [shouldRespond, shouldRespondR, herr]
+
+/-- The same request with `error_detail` removed. -/
+def Req.clean (r : Req) : Req := { r with err := none }
+
+/-- **A NACK for a watched type is never answered** and changes nothing but `LastError`. -/
+theorem nack_silent (s : State) (r : Req) (msg : String) (w : WR) (herr : r.err = some msg) (hw : s r.ty = some w) :
+    shouldRespond s r = .out false [] (s.set r.ty (some { w with lastError := msg })) := by
+  simp [shouldRespond, shouldRespondR, herr, hw]
+
+/-- **A request with `error_detail` for a type that is not watched on this stream** (a NACK queued when the
+    previous stream broke) is the first request of the type: it is handled exactly like the same request
+    without `error_detail` (repair a581d69). -/
+theorem nack_unwatched_is_first_request (s : State) (r : Req) (msg : String) (herr : r.err = some msg)
+    (hnone : s r.ty = none) : shouldRespond s r = shouldRespond s r.clean := by
+  rw [shouldRespond_noerr s r.clean rfl]
+  simp only [shouldRespond, shouldRespondR, herr, hnone, if_true]
+  rfl
+
+/-- Every request is either a NACK for a watched type (silent, `LastError` recorded) or handled like the request
+    without `error_detail`. -/
+theorem respond_cases (s : State) (r : Req) :
+    (∃ msg w, r.err = some msg ∧ s r.ty = some w ∧
+      shouldRespond s r = .out false [] (s.set r.ty (some { w with lastError := msg }))) ∨
+    shouldRespond s r = shouldRespond s r.clean := by
+  cases he : r.err with
+  | none => right; cases r; simp only at he; subst he; rfl
+  | some msg =>
+    cases hw : s r.ty with
+    | none => exact Or.inr (nack_unwatched_is_first_request s r msg he hw)
+    | some w => exact Or.inl ⟨msg, w, rfl, rfl, nack_silent s r msg w he hw⟩
 
 /-- A request carrying a stale nonce is ignored: no answer, no state change. -/
 theorem stale_nonce_silent (s : State) (r : Req) (prev : WR)
     (herr : r.err = none) (hsub : r.unsub = false) (hprev : s r.ty = some prev)
-    (hn : r.nonce ≠ "") (hstale : r.nonce ≠ prev.nonceSent) :
+    (hn : r.nonce ≠ "") (hsent : prev.nonceSent ≠ "") (hstale : r.nonce ≠ prev.nonceSent) :
     shouldRespond s r = .out false [] s := by
-  simp [shouldRespond, shouldRespondG, herr, hsub, hprev, hn, hstale]
+  simp [shouldRespond, shouldRespondR, respondTail, herr, hsub, hprev, hn, hstale, hsent]
+
+/-- **A request for a watch nothing was sent on yet is a new request** (repair F-C04-3): whatever nonce it
+    echoes - the client retains the nonce of a response that preceded this watch - it is answered and the record
+    becomes what it asks for. -/
+theorem unsent_watch_request_responds (s : State) (r : Req) (prev : WR)
+    (herr : r.err = none) (hsub : r.unsub = false) (hprev : s r.ty = some prev) (hsent : prev.nonceSent = "") :
+    shouldRespond s r = .out true [] (newWatched s r.ty r.names) := by
+  unfold shouldRespond shouldRespondR respondTail
+  simp only [herr, hsub, hprev, Bool.false_eq_true, if_false]
+  by_cases hn : r.nonce = "" <;> simp [hn, hsent]
+
+/-- Finding F-C04-3 on the code before the repair: a watch re-created by a request that was answered with
+    nothing to send (`NonceSent = ""`), then the client - echoing the nonce it retains - asks for `c, d`: the
+    request is classified stale and dropped, the record stays `c`. -/
+theorem unsent_watch_request_dropped_witness_unfixed :
+    shouldRespondG true (newWatched State.empty .sds ["c"]) { ty := .sds, names := ["c", "d"], nonce := "n1", err := none }
+      = .out false [] (newWatched State.empty .sds ["c"]) := by
+  simp [shouldRespondG, shouldRespondR, respondTail, Req.unsub, Ty.wildcard, newWatched_self]
 
 /-- An empty request for a non-wildcard type unsubscribes: no answer, watch deleted. -/
 theorem unsubscribe_deletes_watch (s : State) (r : Req)
     (herr : r.err = none) (hsub : r.unsub = true) :
     shouldRespond s r = .out false [] (s.set r.ty none) := by
-  simp [shouldRespond, shouldRespondG, herr, hsub]
+  simp [shouldRespond, shouldRespondR, respondTail, herr, hsub]
 
 /-- The state after a request with the current nonce (ACK or subscription change). -/
 def acked (s : State) (r : Req) (prev : WR) : State :=
@@ -121,10 +165,13 @@ theorem match_branch (s : State) (r : Req) (prev : WR)
         .out false [] (acked s r prev)
       else if !r.ty.wildcard && (diff r.names prev.names).isEmpty then .out false [] (acked s r prev)
       else .out true (diff r.names prev.names) (acked s r prev) := by
-  unfold shouldRespond shouldRespondG acked
+  unfold shouldRespond shouldRespondR respondTail acked
   simp only [herr, hsub, hprev, Bool.false_eq_true, if_false, hn]
   have hne : ¬ (r.nonce ≠ prev.nonceSent) := by simp [hcur]
-  simp only [hne, if_false]
+  have hsent : ¬ (True ∧ prev.nonceSent = "") := by
+    rintro ⟨_, h⟩
+    exact hn (hcur.trans h)
+  simp only [hne, hsent, if_false]
 
 /-- An ACK (current nonce, same set of names, no forced warming response pending) is silent. -/
 theorem ack_silent (s : State) (r : Req) (prev : WR)
@@ -218,37 +265,92 @@ theorem record_matches_request (s : State) (r : Req) (b : Bool) (sub : List Stri
 
 /-- Whenever a request is answered, the record left behind has no pending forced response, and
     carries the requested names. -/
-theorem responded_state_clean (s : State) (r : Req) (sub : List String) (s' : State)
+theorem responded_state_clean_noerr (s : State) (r : Req) (sub : List String) (s' : State) (he : r.err = none)
     (h : shouldRespond s r = .out true sub s') :
     ∃ w, s' r.ty = some w ∧ w.always = false ∧ w.names = r.names := by
-  cases he : r.err with
-  | some msg =>
-    rw [nack_silent s r msg he] at h
-    injection h with hb; cases hb
-  | none =>
-    cases hu : r.unsub
-    · have hnew : shouldRespond s r = .out true [] (newWatched s r.ty r.names) →
-          ∃ w, s' r.ty = some w ∧ w.always = false ∧ w.names = r.names := by
-        intro h2
-        rw [h2] at h
-        injection h with _ _ hs
-        exact ⟨_, by rw [← hs]; exact newWatched_self _ _ _, rfl, rfl⟩
-      cases hp : s r.ty with
-      | none => exact hnew (first_request_or_reconnect_responds s r hp he hu)
-      | some prev =>
-        by_cases hn : r.nonce = ""
-        · exact hnew (empty_nonce_responds s r he hu hn)
-        · by_cases hst : r.nonce = prev.nonceSent
-          · rw [match_branch s r prev he hu hp hn hst] at h
-            refine ⟨{ prev with lastError := "", nonceAcked := r.nonce, names := r.names, always := false }, ?_, rfl, rfl⟩
-            have hacked : acked s r prev = s' := by
-              repeat' split at h
-              all_goals (injection h)
-            rw [← hacked]; simp [acked]
-          · rw [stale_nonce_silent s r prev he hu hp hn hst] at h
+  cases hu : r.unsub
+  · have hnew : shouldRespond s r = .out true [] (newWatched s r.ty r.names) →
+        ∃ w, s' r.ty = some w ∧ w.always = false ∧ w.names = r.names := by
+      intro h2
+      rw [h2] at h
+      injection h with _ _ hs
+      exact ⟨_, by rw [← hs]; exact newWatched_self _ _ _, rfl, rfl⟩
+    cases hp : s r.ty with
+    | none => exact hnew (first_request_or_reconnect_responds s r hp he hu)
+    | some prev =>
+      by_cases hn : r.nonce = ""
+      · exact hnew (empty_nonce_responds s r he hu hn)
+      · by_cases hst : r.nonce = prev.nonceSent
+        · rw [match_branch s r prev he hu hp hn hst] at h
+          refine ⟨{ prev with lastError := "", nonceAcked := r.nonce, names := r.names, always := false }, ?_, rfl, rfl⟩
+          have hacked : acked s r prev = s' := by
+            repeat' split at h
+            all_goals (injection h)
+          rw [← hacked]; simp [acked]
+        · by_cases hsent : prev.nonceSent = ""
+          · exact hnew (unsent_watch_request_responds s r prev he hu hp hsent)
+          · rw [stale_nonce_silent s r prev he hu hp hn hsent hst] at h
             injection h with hb; cases hb
-    · rw [unsubscribe_deletes_watch s r he hu] at h
-      injection h with hb; cases hb
+  · rw [unsubscribe_deletes_watch s r he hu] at h
+    injection h with hb; cases hb
+
+/-- An answered request was handled like the request without `error_detail` (a NACK is answered only as the
+    first request of an unwatched type). -/
+theorem answered_clean (s : State) (r : Req) (sub : List String) (s' : State)
+    (h : shouldRespond s r = .out true sub s') : shouldRespond s r.clean = .out true sub s' := by
+  rcases respond_cases s r with ⟨msg, w, _, _, hr⟩ | heq
+  · rw [hr] at h; injection h with hb; cases hb
+  · rw [← heq]; exact h
+
+theorem responded_state_clean (s : State) (r : Req) (sub : List String) (s' : State)
+    (h : shouldRespond s r = .out true sub s') :
+    ∃ w, s' r.ty = some w ∧ w.always = false ∧ w.names = r.names :=
+  responded_state_clean_noerr s r.clean sub s' rfl (answered_clean s r sub s' h)
+
+/-- An answered request is not an unsubscribe. -/
+theorem answered_not_unsub (s : State) (r : Req) (sub : List String) (s' : State)
+    (h : shouldRespond s r = .out true sub s') : r.unsub = false := by
+  have h' := answered_clean s r sub s' h
+  cases hu : r.unsub
+  · rfl
+  · rw [unsubscribe_deletes_watch s r.clean rfl hu] at h'
+    injection h' with hb; cases hb
+
+/-- The shapes of the decision for a request that is neither a rejection nor an unsubscribe: silent with the
+    watch kept (only when there was one), or answered with a watch on record.  (Used by the C03 history
+    theorems, which do not depend on the branch structure of `ShouldRespond`.) -/
+theorem respond_shapes (s : State) (r : Req) (herr : r.err = none) (hun : r.unsub = false) :
+    (∃ s', shouldRespond s r = .out false [] s' ∧ (s' r.ty).isSome = true ∧ (s r.ty).isSome = true) ∨
+    (∃ sub s' w, shouldRespond s r = .out true sub s' ∧ s' r.ty = some w) := by
+  have hnew : shouldRespond s r = .out true [] (newWatched s r.ty r.names) →
+      ∃ sub s' w, shouldRespond s r = .out true sub s' ∧ s' r.ty = some w :=
+    fun h => ⟨[], _, _, h, newWatched_self _ _ _⟩
+  cases hp : s r.ty with
+  | none => exact Or.inr (hnew (first_request_or_reconnect_responds s r hp herr hun))
+  | some prev =>
+    by_cases hn : r.nonce = ""
+    · exact Or.inr (hnew (empty_nonce_responds s r herr hun hn))
+    · by_cases hsent : prev.nonceSent = ""
+      · exact Or.inr (hnew (unsent_watch_request_responds s r prev herr hun hp hsent))
+      · by_cases hst : r.nonce = prev.nonceSent
+        · rw [match_branch s r prev herr hun hp hn hst]
+          split
+          · exact Or.inr ⟨_, _, _, rfl, State.set_same _ _ _⟩
+          · split
+            · exact Or.inl ⟨_, rfl, by simp [acked], by simp⟩
+            · split
+              · exact Or.inl ⟨_, rfl, by simp [acked], by simp⟩
+              · exact Or.inr ⟨_, _, _, rfl, State.set_same _ _ _⟩
+        · exact Or.inl ⟨s, stale_nonce_silent s r prev herr hun hp hn hsent hst, by simp [hp], by simp⟩
+
+/-- The same, as one outcome (the form the C03 history theorems use). -/
+theorem respond_outcome (s : State) (r : Req) (herr : r.err = none) (hun : r.unsub = false) :
+    ∃ b sub s', shouldRespond s r = .out b sub s' ∧ (s' r.ty).isSome = true ∧ (b = false → sub = []) ∧
+      (s r.ty = none → b = true) := by
+  rcases respond_shapes s r herr hun with ⟨s', h, hs', hs⟩ | ⟨sub, s', w, h, hw⟩
+  · refine ⟨false, [], s', h, hs', fun _ => rfl, ?_⟩
+    intro hn; rw [hn] at hs; cases hs
+  · exact ⟨true, sub, s', h, by simp [hw], fun hb => Bool.noConfusion hb, fun _ => rfl⟩
 
 /-- **No loop.** Take any answered request `r`; the server sends its response with any non-empty
     nonce `n` and the send succeeds; a conformant client acknowledges with that nonce and the names
@@ -258,13 +360,7 @@ theorem no_loop (s : State) (r : Req) (sub : List String) (s1 : State)
     ∃ s3, shouldRespond (send s1 r.ty n true) { ty := r.ty, names := r.names, nonce := n, err := none }
       = .out false [] s3 := by
   obtain ⟨w, hw, hal, hnames⟩ := responded_state_clean s r sub s1 h
-  have hu : r.unsub = false := by
-    cases hu : r.unsub
-    · rfl
-    · unfold shouldRespond shouldRespondG at h
-      cases he : r.err with
-      | some msg => simp only [he] at h; cases hp : s r.ty <;> simp [hp] at h
-      | none => simp [he, hu] at h
+  have hu : r.unsub = false := answered_not_unsub s r sub s1 h
   have hs2 : send s1 r.ty n true r.ty = some { w with nonceSent := n } := by
     simp [send, hn, hw]
   refine ⟨_, ack_silent (send s1 r.ty n true) { ty := r.ty, names := r.names, nonce := n, err := none }
@@ -311,15 +407,21 @@ theorem delta_first_request_or_reconnect_responds (s : State) (r : DReq)
     ∃ s', shouldRespondDelta s r = .out true s' := by
   simp [shouldRespondDelta, shouldRespondDeltaG, deltaFirst, herr, hnone]
 
-/-- A NACK that carries no subscription change is silent; only the error is recorded. -/
-theorem delta_nack_silent (s : State) (r : DReq) (msg : String) (herr : r.err = some msg)
-    (hc : r.carries = false) :
-    shouldRespondDelta s r = .out false (match s r.ty with
-      | none => s
-      | some w => s.set r.ty (some { w with lastError := msg })) := by
+/-- A NACK for a watched type that carries no subscription change is silent; only the error is recorded. -/
+theorem delta_nack_silent (s : State) (r : DReq) (msg : String) (w : WR) (herr : r.err = some msg)
+    (hw : s r.ty = some w) (hc : r.carries = false) :
+    shouldRespondDelta s r = .out false (s.set r.ty (some { w with lastError := msg })) := by
   unfold shouldRespondDelta shouldRespondDeltaG
-  simp only [herr, hc]
-  cases s r.ty <;> simp
+  simp [herr, hc, hw]
+
+/-- The first request of a type on the stream is answered whatever it carries - also `error_detail` (a NACK queued
+    when the previous stream broke, repair a581d69): closed form. -/
+theorem delta_unwatched_is_first_request (s : State) (r : DReq) (hnone : s r.ty = none) :
+    shouldRespondDelta s r = .out true (s.set r.ty (some
+      { names := if r.ty.managed && (deltaWatched [] r).2.1 then [] else (deltaWatched [] r).1,
+        wildcard := (deltaWatched [] r).2.1 })) := by
+  unfold shouldRespondDelta shouldRespondDeltaG
+  cases r.err <;> simp [hnone, deltaFirst]
 
 /-- A stale ACK that carries no subscription change is silent and changes nothing. -/
 theorem delta_stale_nonce_silent (s : State) (r : DReq) (prev : WR)
@@ -432,12 +534,8 @@ theorem delta_responded_state_clean (s : State) (r : DReq) (s' : State)
     simp only [he] at h
     cases hp : s r.ty with
     | none =>
-      simp only [hp] at h
-      by_cases hc : r.carries = true
-      · rw [if_pos (by simp [hc])] at h
-        exact deltaFirst_clean _ _ _ _ h
-      · have hcf : r.carries = false := by simpa using hc
-        simp [hcf] at h
+      simp only [hp, if_true] at h
+      exact deltaFirst_clean _ _ _ _ h
     | some w =>
       simp only [hp] at h
       by_cases hc : r.carries = true
@@ -558,7 +656,7 @@ example : ∃ s', shouldRespond exState { ty := .eds, names := ["a"], nonce := "
 example : shouldRespond exState { ty := .eds, names := ["a"], nonce := "n0", err := none }
     = .out false [] exState :=
   stale_nonce_silent exState _ { names := ["a"], nonceSent := "n1" } rfl (by simp [Req.unsub]) (by simp [exState])
-    (by simp) (by simp)
+    (by simp) (by simp) (by simp)
 
 /-! ## The subscription change attached to a stale ACK (finding F-C04-2)
 
@@ -579,7 +677,7 @@ def namesOf (s : State) (t : Ty) : Option (List String) := (s t).map (·.names)
 /-- The state after the first three steps of the trace (subscribe a; responses n1 and n2 sent). -/
 def staleTraceS3 (keepSub : Bool) : State :=
   sendDelta (sendDelta
-    (shouldRespondDeltaG true keepSub State.empty
+    (shouldRespondDeltaG true keepSub keepSub State.empty
       { ty := .eds, sub := ["a"], unsub := [], init := [], nonce := "", err := none }).state
     .eds "n1" none true) .eds "n2" none true
 
@@ -590,8 +688,8 @@ def ackN2 : DReq := { ty := .eds, sub := [], unsub := [], init := [], nonce := "
     the exchange (last message = a plain ACK, processed, not a rejection) the record is {a} although the
     client asked for {a, b} - the last sentence of the property is false for delta. -/
 theorem delta_stale_sub_lost_witness_unfixed :
-    namesOf (shouldRespondDeltaG true false
-      (shouldRespondDeltaG true false (staleTraceS3 false) staleAckWithSub).state ackN2).state .eds
+    namesOf (shouldRespondDeltaG true false false
+      (shouldRespondDeltaG true false false (staleTraceS3 false) staleAckWithSub).state ackN2).state .eds
       = some ["a"] := by
   decide
 
